@@ -4,6 +4,7 @@ import (
 	"bytes"
 	"fmt"
 
+	"github.com/alttpo/snes/emulator/cpu65c816"
 	"github.com/alttpo/snes/emulator/cpualt"
 
 	"verif/sim"
@@ -28,7 +29,7 @@ func (c12) Rule() string {
 }
 func (c12) Assumptions() []string {
 	return []string{
-		"callbacks only observe (record PC/AllCycles, disassemble); the property does not define callbacks that rewrite the CPU",
+		"callbacks only observe (record PC/AllCycles, disassemble), except that in one variant they restart the exported cycle total AllCycles (a host's per-frame counter): RunUntil's budget counts the cycles the call itself has consumed; callbacks that rewrite registers are not defined by the property",
 		"cpualt has an OnPC field but no mechanism consulting it: 'where the interpreter offers callbacks' is taken to mean cpu65c816 for OnPC and both for OnWDM",
 		"RunUntil keeps stepping after STP (the property only requires Step to report the stop)",
 		"interrupt requests (TriggerIRQ; NMI through the exported Interrupt field) occur only in the bare-CPU lifecycle scripts, where the fetched opcode is predicted through the vector; OnPC is not registered in scripts that contain them",
@@ -56,6 +57,9 @@ func (c12) Gen(r *sim.Rand, tier string, run uint64) *sim.Scenario {
 		sc.Cfg["tk"] = int64(r.Intn(60))
 		sc.Cfg["cbsel"] = int64(r.Intn(5))
 		sc.Cfg["cbdis"] = int64(r.Intn(2))
+		if r.Chance(1, 6) {
+			sc.Cfg["cbzero"] = 1
+		}
 		sc.Cfg["wdm"] = int64(r.Intn(2))
 		sc.Cfg["sink"] = int64(sim.PickInt(r, -1, -1, 0, 0, 1, 2, 3))
 		sc.Cfg["sinkk"] = int64(r.Intn(30))
@@ -79,10 +83,18 @@ func (c12) Gen(r *sim.Rand, tier string, run uint64) *sim.Scenario {
 		for i := 0; i < n; i++ {
 			if r.Chance(1, 3) {
 				ops = append(ops, sim.Op{K: "reset"})
+			} else if r.Chance(1, 8) {
+				// the caller takes a copy of the CPU with InitFrom between two instructions and
+				// carries on with the copy (0) or with the original (1): not a reset
+				ops = append(ops, sim.Op{K: "initfrom", N: []int64{int64(r.Intn(2))}})
 			} else if r.Chance(1, 4) {
 				// an interrupt request between two instructions (accepted only while I = 0;
 				// CLI first makes that likely); N[0] = 1 requests an NMI instead
 				ops = append(ops, sim.Op{K: "irq", N: []int64{int64(r.Intn(3) / 2)}})
+				if r.Chance(1, 4) {
+					// a copy is taken while the request is pending
+					ops = append(ops, sim.Op{K: "initfrom", N: []int64{int64(r.Intn(2))}})
+				}
 			} else {
 				ops = append(ops, sim.Op{K: "step", N: []int64{int64(r.Range(1, 80))}})
 			}
@@ -349,6 +361,7 @@ func c12sys(sc *sim.Scenario, env *sim.Env) *sim.Violation {
 			cbAddrs[target] = true
 		}
 	}
+	cbzero := sc.C("cbzero") != 0 && !again
 	onpc := map[uint32]func(){}
 	for a := range cbAddrs {
 		a := a
@@ -363,6 +376,12 @@ func c12sys(sc *sim.Scenario, env *sim.Env) *sim.Violation {
 				_ = s.CPU.DisassembleCurrentPC(oa[:0])
 			}
 			cbEvents = append(cbEvents, ev)
+			if cbzero {
+				// the host keeps a per-frame cycle counter in the exported total and restarts it
+				// here: RunUntil's budget counts the cycles *it* has consumed, whatever the
+				// caller does to the running total
+				s.CPU.AllCycles = 0
+			}
 		}
 	}
 	if len(onpc) > 0 {
@@ -460,6 +479,10 @@ func c12sys(sc *sim.Scenario, env *sim.Env) *sim.Violation {
 		return &sim.Violation{Oracle: "rununtil_executed_at_target_or_zero_budget", Step: -1,
 			Msg: fmt.Sprintf("start=%06x target=%06x budget=%d: RunUntil executed instructions (AllCycles=%d)", start, target, budget, regsA.AllCycles)}
 	}
+	if cbzero && len(cbEvents) > 0 {
+		st.Probe("hook_restarts_cycle_total")
+		regsA.AllCycles = regsR.AllCycles // the hooks restarted the total: not comparable
+	}
 	if d := regsA.Diff(regsR, false); d != "" {
 		return &sim.Violation{Oracle: "rununtil_vs_definition", Step: -1,
 			Msg: fmt.Sprintf("RunUntil(target=%06x, budget=%d) vs bare-Step twin (%d instructions, stops when consumed >= budget or PC = target): %s", target, budget, len(recs), d)}
@@ -540,6 +563,9 @@ func c12sys(sc *sim.Scenario, env *sim.Env) *sim.Violation {
 							Msg: fmt.Sprintf("callback #%d ran for %06x with AllCycles=%d; expected before the instruction at %06x with AllCycles=%d", idx, ev.addr, ev.allCycles, r.R.PCL(), cyc)}
 					}
 				}
+				if cbzero {
+					cyc = 0
+				}
 				idx++
 			}
 			cyc += uint64(r.Cycles)
@@ -617,11 +643,13 @@ func c12bare(sc *sim.Scenario, env *sim.Env) *sim.Violation {
 			hasIRQ = true
 		}
 	}
+	var onpc map[uint32]func()
 	if sc.C("kind") == 2 && !hasIRQ {
-		cpu.SetOnPC(map[uint32]func(){cbAddr: func() {
+		onpc = map[uint32]func(){cbAddr: func() {
 			env.Yield("cb.pc")
 			pcEvents = append(pcEvents, pcev{stepNo, mem.Reads - readsAtStepStart})
-		}})
+		}}
+		cpu.SetOnPC(onpc)
 	}
 	stopped := false
 	visits := 0
@@ -638,6 +666,41 @@ func c12bare(sc *sim.Scenario, env *sim.Env) *sim.Violation {
 			env.FaultYield("op")
 			if cpu.Regs().Stopped {
 				return &sim.Violation{Oracle: "stop_flag_after_reset", Step: i, Msg: "Stopped still set after Reset"}
+			}
+		case "initfrom":
+			before := cpu.Regs()
+			var cp CPUI
+			p, pv := sim.RecoverLib(func() {
+				switch src := cpu.(type) {
+				case cpuA:
+					c2 := &cpu65c816.CPU{}
+					c2.InitFrom(src.c, mc.busA)
+					cp = cpuA{c2}
+				case cpuB:
+					c2 := &cpualt.CPU{}
+					c2.InitFrom(src.c)
+					cp = cpuB{c2}
+				}
+			})
+			if p || cp == nil {
+				return &sim.Violation{Oracle: "initfrom_panic", Step: i, Msg: sim.PanicString(pv)}
+			}
+			st.Probe("initfrom_midscript")
+			if d := before.Diff(cpu.Regs(), true); d != "" {
+				return &sim.Violation{Oracle: "initfrom_changed_source", Step: i, Msg: "taking a copy with InitFrom changed the CPU it was taken from: " + d}
+			}
+			if cp.Regs().Stopped != stopped {
+				return &sim.Violation{Oracle: "stop_flag", Step: i, Msg: fmt.Sprintf("%s: a copy taken with InitFrom has Stopped=%v; STP executed since the last Reset: %v (InitFrom is not a reset)", cpu.Kind(), cp.Regs().Stopped, stopped)}
+			}
+			if op.Arg(0) == 0 {
+				// carry on with the copy; the caller installs its callbacks on it
+				cpu = cp
+				if sc.C("wdm") != 0 {
+					cpu.SetOnWDM(func(b byte) { env.Yield("cb.wdm"); wdmArgs = append(wdmArgs, b) })
+				}
+				if onpc != nil {
+					cpu.SetOnPC(onpc)
+				}
 			}
 		case "irq":
 			// the property says the stop condition holds "until the CPU is reset": an interrupt
